@@ -66,28 +66,71 @@ def symdict_set(it, d, key, val, pc):
             d.vals[k] = vc.select(c, val, d.vals[k])
 
 
+def _lookup1(it, d, k):
+    vc = it.vc
+    if type(k) is Pair:
+        from .values import mkpair
+
+        vl, pl = _lookup1(it, d, k.l)
+        vr, pr = _lookup1(it, d, k.r)
+        lv = vl
+        rv = vr
+        # left component of the left lookup, right component of the right lookup
+        val = vc.lift(lambda a, b: 0, [], vc.CT, it.sink) if False else None
+        la = left_part(vc, vl)
+        ra = right_part(vc, vr)
+        val = pair_of(vc, la, ra)
+        return val, Cond(pl.l, pr.r)
+    try:
+        hash(k)
+    except TypeError:
+        raise Unsupported("unhashable key %r" % (k,))
+    if k in d.pres:
+        return d.vals[k], d.pres[k]
+    return UNBOUND, vc.CF
+
+
+def left_part(vc, v):
+    if type(v) is U:
+        return vc.mk_union([(g, left(l)) for g, l in v.alts], sweep=False)
+    return left(v)
+
+
+def right_part(vc, v):
+    if type(v) is U:
+        return vc.mk_union([(g, right(l)) for g, l in v.alts], sweep=False)
+    return right(v)
+
+
+def pair_of(vc, a, b):
+    """value whose left component is a's and right component is b's"""
+    from .values import mkpair
+
+    if type(a) is not U and type(b) is not U:
+        return mkpair(a, b)
+    out = []
+    for ga, la in vc.alts(a):
+        for gb, lb in vc.alts(b):
+            g = vc.m.AND(ga, gb)
+            if g is vc.F:
+                continue
+            out.append((g, mkpair(la, lb)))
+    return vc.mk_union(out, sweep=False)
+
+
 def symdict_lookup(it, d, key, pc):
     """returns (Value, present Cond) for d[key]"""
     vc = it.vc
     if type(key) is not U:
-        if type(key) is Pair:
-            raise Unsupported("pair key")
-        try:
-            hash(key)
-        except TypeError:
-            raise Unsupported("unhashable key %r" % (key,))
-        if key in d.pres:
-            return d.vals[key], d.pres[key]
-        return UNBOUND, vc.CF
+        return _lookup1(it, d, key)
     outs = []
     pres = vc.CF
     for g, k in key.alts:
-        if type(k) is Pair:
-            raise Unsupported("pair key")
-        if k in d.pres:
-            p = d.pres[k]
-            outs.append((g, d.vals[k]))
-            pres = vc.c_or(pres, vc.c_andg(p, g))
+        v, p = _lookup1(it, d, k)
+        if p is vc.CF:
+            continue
+        outs.append((g, v))
+        pres = vc.c_or(pres, vc.c_andg(p, g))
     val = vc.mk_union(outs, sweep=False)
     return val, pres
 
